@@ -110,9 +110,16 @@ def random_spec(rng):
                 k = rng.randrange(nb)
                 zs.append((edges[k] + edges[k + 1]) / 2.0)
     patches = [[(z, rng.randrange(1, 41) / 8.0 if hasw else 1.0) for z in zs] for zs in patches]
-    return dict(tag="random:" + mode, closed=closed, hasw=hasw, edges=edges, patches=patches,
+    # earlier (unforced) tree builds on the same cache: the rule must also hold when trees for another
+    # closed side / other edges of the same length are already cached
+    prior = None
+    if rng.random() < 0.3:
+        other = "left" if closed == "right" else "right"
+        shifted = [edges[0]] + [(a + b) / 2.0 for a, b in zip(edges[1:-1], edges[2:])] + [edges[-1]] if nb >= 2 else edges
+        prior = rng.choice([[(edges, other)], [(shifted, closed)], [(edges, other), (shifted, other)], [(None, closed), (edges, other)]])
+    return dict(tag="random:" + mode + (":prior" if prior else ""), closed=closed, hasw=hasw, edges=edges, patches=patches,
                 meas=rng.choice([None, None, "auto", "auto", "cross"]),
-                cfg=rng.choice(["binning", "configuration"]))
+                cfg=rng.choice(["binning", "configuration"]), prior=prior)
 
 
 def exhaustive_specs(max_objs_by_nb):
@@ -154,6 +161,13 @@ def probe_specs():
         # F17 with a healthy neighbour patch (and the open outer edge as the outside value)
         dict(tag="probe:F17b", closed="right", hasw=False, edges=[0.25, 0.5, 1.0],
              patches=[[(0.375, 1.0), (0.75, 1.0)], [(0.25, 1.0)]], meas=None, cfg="configuration"),
+        # trees for the other closed side are already cached when the observed build happens
+        dict(tag="probe:prior-other-closed", closed="left", hasw=True, edges=[0.25, 0.5, 1.0],
+             patches=[[(0.25, 0.5), (0.5, 1.0), (1.0, 2.0), (0.375, 4.0)], [(0.5, 0.25), (0.75, 8.0)]],
+             meas="auto", cfg="binning", prior=[([0.25, 0.5, 1.0], "right")]),
+        dict(tag="probe:prior-other-edges", closed="right", hasw=False, edges=[0.25, 0.5, 1.0],
+             patches=[[(0.25, 1.0), (0.5, 1.0), (0.625, 1.0), (1.0, 1.0)], [(0.5, 1.0), (0.75, 1.0)]],
+             meas="cross", cfg="configuration", prior=[([0.25, 0.625, 1.0], "right"), (None, "right")]),
         # control: the same redshifts are fine for closed = left in all three consumers
         dict(tag="probe:left-control", closed="left", hasw=True, edges=[0.25, 0.5, 1.0],
              patches=[[(0.25, 0.5), (0.5, 1.0), (1.0, 2.0), (0.375, 4.0)], [(0.5, 0.25), (0.125, 8.0)]],
@@ -200,6 +214,11 @@ def observe(ctx, spec, idx):
     try:
         cat = impl.Catalog.from_dataframe(cache, impl.make_df(cols), redshift_name="z", **kw)
         assert sorted(int(k) for k in cat.keys()) == list(range(P)), "patch ids"
+        for (pe, pc) in (spec.get("prior") or []):
+            try:
+                cat.build_trees(None if pe is None else np.asarray(pe, dtype="f8"), closed=pc, max_workers=1)
+            except Exception:  # noqa: BLE001 - an earlier build that fails is part of the history, not the observation
+                pass
         # ---- consumer 1: the trees
         whole = None
         try:
